@@ -32,6 +32,9 @@ var solvers = []solverSpec{
 }
 
 var retryPortfolio = []solverSpec{
+	// the default configurations again with a longer budget (a loaded machine), then variations
+	{"z3-5.1.0", func(f string, t int) []string { return []string{"z3-new", fmt.Sprintf("-T:%d", t+5), f} }},
+	{"z3-4.8.12", func(f string, t int) []string { return []string{"z3", fmt.Sprintf("-T:%d", t+5), f} }},
 	{"z3-5.1.0 auto_config=false", func(f string, t int) []string {
 		return []string{"z3-new", fmt.Sprintf("-T:%d", t), "auto_config=false", f}
 	}},
@@ -40,9 +43,6 @@ var retryPortfolio = []solverSpec{
 	}},
 	{"z3-5.1.0 seed=1", func(f string, t int) []string {
 		return []string{"z3-new", fmt.Sprintf("-T:%d", t), "smt.random_seed=1", f}
-	}},
-	{"z3-5.1.0 relevancy=0 seed=2", func(f string, t int) []string {
-		return []string{"z3-new", fmt.Sprintf("-T:%d", t), "smt.relevancy=0", "smt.random_seed=2", f}
 	}},
 	{"cvc5-1.0", func(f string, t int) []string { return []string{"cvc5", fmt.Sprintf("--tlimit=%d", t*1000), f} }},
 }
